@@ -2055,3 +2055,276 @@ func (c *Ctx) allBuiltTokens() []struct {
 	}
 	return out
 }
+
+// ---------------------------------------------------------------------------------------------
+// Entry points (P-ATOMIC-WRITE, P-FORMAT-GATE, P-FRAGMENT) on paths, failure edges included.
+
+type entrySpec struct {
+	f        *ssa.Function
+	kind     string // "file" | "fragment" | "render" (fragment with fresh File) | "gostring" | "save"
+	recvType string
+}
+
+func errDerives(ret *T, errTerm string) bool {
+	if ret == nil {
+		return false
+	}
+	if ret.String() == errTerm {
+		return true
+	}
+	if ret.Op == "call" && (ret.Aux == "fmt.Errorf" || strings.HasPrefix(ret.Aux, "errors.")) {
+		for _, a := range ret.A {
+			if a.String() == errTerm {
+				return true
+			}
+		}
+	}
+	return false
+}
+
+func rulePXEntries(c *Ctx, part string) []Obligation {
+	o := c.newObs(part)
+	var entries []entrySpec
+	for _, tn := range []string{"Statement", "Group"} {
+		if f := c.method(tn, "RenderWithFile"); f != nil {
+			entries = append(entries, entrySpec{f, "fragment", tn})
+		}
+		if f := c.method(tn, "Render"); f != nil {
+			entries = append(entries, entrySpec{f, "render", tn})
+		}
+		if f := c.method(tn, "GoString"); f != nil {
+			entries = append(entries, entrySpec{f, "gostring", tn})
+		}
+	}
+	if f := c.method("File", "Render"); f != nil {
+		entries = append(entries, entrySpec{f, "file", "File"})
+	}
+	if f := c.method("File", "GoString"); f != nil {
+		entries = append(entries, entrySpec{f, "gostring", "File"})
+	}
+	if len(entries) < 8 {
+		o.undecided("jen", "render entry points", token.NoPos, "expected Render / RenderWithFile / GoString of Statement and Group and Render / GoString of File, found %d", len(entries))
+	}
+	ri := c.role("renderImports")
+	for _, es := range entries {
+		f := es.f
+		fn := fname(f)
+		paths, trunc := c.Paths(f, PXConfig{Opaque: c.stdOpaque(ri), MaxVisits: 3, MaxDepth: 9, MaxPaths: 40000})
+		if trunc || len(paths) == 0 {
+			o.undecided(fn, "path enumeration", f.Pos(), "%d paths, truncated %v", len(paths), trunc)
+			continue
+		}
+		c.stats["paths:"+fn] = len(paths)
+		t := newTally(o, fn, f.Pos())
+		wname := "p0" // the caller's writer
+		for _, p := range paths {
+			// events of interest
+			var writes []Ev
+			var fmtEv, renderEv *Ev
+			nfmt := 0
+			for i := range p.Events {
+				e := &p.Events[i]
+				switch {
+				case e.Kind == "write" && e.Writer.String() == wname && es.kind != "gostring":
+					writes = append(writes, *e)
+				case e.Kind == "write":
+					t.note("the only writer written to is the caller's", false, "path %s writes to %s", traceOf(p), e.Writer)
+				case e.Kind == "call" && e.Name == "go/format.Source":
+					fmtEv = e
+					nfmt++
+				case e.Kind == "call" && e.Fn != nil && (e.Fn.Name() == c.renderName()) && renderEv == nil:
+					renderEv = e
+				case e.Kind == "invoke" && e.Name == c.renderName() && renderEv == nil:
+					// rendered through the Code interface (a shared helper taking a Code)
+					re := *e
+					re.Args = append([]*T{e.Recv}, e.Args...)
+					renderEv = &re
+				case (e.Kind == "call" || e.Kind == "invoke") && es.kind != "gostring":
+					// the caller's writer must not be handed to anything else
+					for _, a := range e.Args {
+						if a != nil && a.String() == wname {
+							t.note("the caller's writer is never handed to another routine", false, "path %s passes it to %s", traceOf(p), e.Name)
+						}
+					}
+				}
+			}
+			F := p.Facts
+			// ---- fragment context (P-FRAGMENT)
+			if part == "P-FRAGMENT" {
+				if renderEv == nil {
+					if p.End != "panic" {
+						t.note("the receiver is rendered", false, "path %s renders nothing", traceOf(p))
+					}
+					continue
+				}
+				args := renderEv.Args
+				recvOK := len(args) >= 3 && (args[0].String() == "recv" || args[0].String() == "recv.Group")
+				t.note("the receiver itself is rendered into a private buffer", recvOK && args[2].Op == "alloc", "path %s renders %v", traceOf(p), args)
+				switch es.kind {
+				case "fragment":
+					t.note("RenderWithFile renders with the caller's File", len(args) >= 2 && args[1].String() == "p1", "path %s uses File %s", traceOf(p), args[1])
+				case "render", "gostring":
+					if es.recvType != "File" {
+						fresh := len(args) >= 2 && args[1].Op == "alloc"
+						okEmpty := fresh && strings.Contains(p.Deep(args[1]), c.ff("imports")+":make") && !strings.Contains(p.Deep(args[1]), "global")
+						t.note("Render / GoString use a File of their own, freshly built by a constructor", fresh && okEmpty, "path %s uses File %s", traceOf(p), p.Deep(args[1]))
+					} else {
+						t.note("a File renders into itself", len(args) >= 2 && args[1].String() == "recv", "path %s uses File %s", traceOf(p), args[1])
+					}
+				case "file":
+					t.note("a File renders into itself", len(args) >= 2 && args[1].String() == "recv", "path %s uses File %s", traceOf(p), args[1])
+				}
+				if es.kind == "gostring" {
+					// success: returns the produced text; failure: panics with the error
+					if p.End == "panic" {
+						pe := p.Events[len(p.Events)-1]
+						isErr := len(pe.Args) == 1 && pe.Args[0].Typ != nil && (isErrorType(pe.Args[0].Typ) || strings.Contains(pe.Args[0].String(), "Errorf") || pe.Args[0].Op == "call" || pe.Args[0].Op == "extract")
+						t.note("GoString panics with the render error", isErr, "path %s panics with %v", traceOf(p), pe.Args)
+					} else if len(p.Ret) == 1 {
+						r := p.Ret[0]
+						okText := fmtEv != nil && r.String() == fmtEv.Res.String()+"#0" || (es.recvType == "File" && F.Has("recv.NoFormat", true))
+						t.note("GoString returns exactly the rendered, formatted text", okText, "path %s returns %s", traceOf(p), r)
+					}
+				}
+				continue
+			}
+			if es.kind == "gostring" {
+				continue
+			}
+			// ---- atomic write (P-ATOMIC-WRITE) and format gate (P-FORMAT-GATE)
+			renderOK := renderEv != nil && F.Has(eqAtom(renderEv.Res.String(), "nil"), true)
+			renderFailed := renderEv != nil && F.Has(eqAtom(renderEv.Res.String(), "nil"), false)
+			fmtOK := fmtEv != nil && F.Has(eqAtom(fmtEv.Res.String()+"#1", "nil"), true)
+			fmtFailed := fmtEv != nil && F.Has(eqAtom(fmtEv.Res.String()+"#1", "nil"), false)
+			noFormat := es.kind == "file" && F.Has("recv.NoFormat", true)
+			// any other fallible module call that failed on this path (renderImports …)
+			otherFailed := false
+			for _, e := range p.Events {
+				if e.Kind == "call" && e.Res != nil && e.Res.Typ != nil && isErrorType(e.Res.Typ) && F.Has(eqAtom(e.Res.String(), "nil"), false) {
+					otherFailed = true
+				}
+			}
+			if part == "P-ATOMIC-WRITE" {
+				t.note("the caller's writer receives at most one write", len(writes) <= 1, "path %s writes %d times", traceOf(p), len(writes))
+				if renderFailed || fmtFailed || otherFailed {
+					t.note("nothing is written to the caller's writer when rendering or formatting fails", len(writes) == 0, "path %s writes after a failure (facts %s)", traceOf(p), F)
+					// and the failure is returned
+					okRet := false
+					for _, r := range p.Ret {
+						if r.Typ != nil && isErrorType(r.Typ) && !r.Nil {
+							okRet = true
+						}
+					}
+					t.note("a render / format failure is returned to the caller", okRet && p.End == "return", "path %s ends in %s returning %v", traceOf(p), p.End, p.Ret)
+					continue
+				}
+				if len(writes) == 1 {
+					w := writes[0]
+					wf := p.FactsAt(w)
+					okBefore := renderEv != nil && wf.Has(eqAtom(renderEv.Res.String(), "nil"), true) && (noFormat || (fmtEv != nil && wf.Has(eqAtom(fmtEv.Res.String()+"#1", "nil"), true)))
+					t.note("the write happens only after rendering and formatting have succeeded", okBefore, "path %s writes with facts %s", traceOf(p), wf)
+					// the writer's error reaches the caller
+					werr := w.Res.String() + "#1"
+					if F.Has(eqAtom(werr, "nil"), false) {
+						ok := len(p.Ret) > 0 && errDerives(p.Ret[len(p.Ret)-1], werr)
+						t.note("a writer error is returned to the caller", ok, "path %s returns %v after the write failed", traceOf(p), p.Ret)
+					} else if len(p.Ret) > 0 {
+						r := p.Ret[len(p.Ret)-1]
+						t.note("success is reported only if the write succeeded", r.Nil && F.Has(eqAtom(werr, "nil"), true) || r.String() == werr, "path %s returns %s without the writer's error having been examined (facts %s)", traceOf(p), r, F)
+						if r.String() == werr {
+							t.note("a writer error is returned to the caller", true, "")
+						}
+					}
+				} else if p.End == "return" && renderOK && (fmtOK || noFormat) {
+					t.note("the output is delivered on every successful path", false, "path %s succeeds without writing to the caller's writer", traceOf(p))
+				}
+				continue
+			}
+			if part == "P-FORMAT-GATE" {
+				if len(writes) == 0 {
+					continue
+				}
+				w := writes[0]
+				t.note("format.Source is applied at most once", nfmt <= 1, "path %s formats %d times", traceOf(p), nfmt)
+				if renderEv == nil {
+					t.note("what is written is the rendering of the receiver", false, "path %s writes without rendering", traceOf(p))
+					continue
+				}
+				// the raw text: content of the private buffer(s) = something containing rendered(render call)
+				raw := ""
+				if fmtEv != nil && len(fmtEv.Args) == 1 {
+					raw = fmtEv.Args[0].String()
+				}
+				data := ""
+				if w.Data != nil {
+					data = w.Data.String()
+				}
+				switch {
+				case noFormat:
+					okRaw := strings.Contains(data, "rendered("+renderEv.Res.String()+")") && nfmt == 0
+					t.note("with NoFormat the raw text is written as it is", okRaw, "path %s writes %s", traceOf(p), segsString(w.Segs))
+					rawSets[fn+"|raw"] = append(rawSets[fn+"|raw"], normaliseInst(data))
+				case fmtEv != nil:
+					okF := data == fmtEv.Res.String()+"#0" && strings.Contains(raw, "rendered("+renderEv.Res.String()+")")
+					t.note("without NoFormat only the result of a successful format.Source over the raw rendering is written", okF && p.FactsAt(w).Has(eqAtom(fmtEv.Res.String()+"#1", "nil"), true), "path %s writes %s", traceOf(p), data)
+					rawSets[fn+"|fmt"] = append(rawSets[fn+"|fmt"], normaliseInst(raw))
+				default:
+					t.note("without NoFormat only the result of a successful format.Source over the raw rendering is written", false, "path %s writes %s without formatting (facts %s)", traceOf(p), data, F)
+				}
+			}
+		}
+		switch part {
+		case "P-ATOMIC-WRITE":
+			if es.kind != "gostring" {
+				t.require("the write happens only after rendering and formatting have succeeded", "nothing is written to the caller's writer when rendering or formatting fails", "a writer error is returned to the caller")
+			}
+		case "P-FORMAT-GATE":
+			if es.kind != "gostring" {
+				t.require("without NoFormat only the result of a successful format.Source over the raw rendering is written")
+			}
+			if es.kind == "file" {
+				t.require("with NoFormat the raw text is written as it is")
+				// the bypass is the only difference: the same raw texts arise in both modes
+				a, b := map[string]bool{}, map[string]bool{}
+				for _, x := range rawSets[fn+"|raw"] {
+					a[x] = true
+				}
+				for _, x := range rawSets[fn+"|fmt"] {
+					b[x] = true
+				}
+				same := len(a) == len(b)
+				for x := range a {
+					if !b[x] {
+						same = false
+					}
+				}
+				delete(rawSets, fn+"|raw")
+				delete(rawSets, fn+"|fmt")
+				o.req(same && len(a) > 0, fn, "the NoFormat bypass is the only difference between the two modes", f.Pos(), "%d distinct raw texts with NoFormat, %d handed to the formatter; they must be the same texts", len(a), len(b))
+			}
+		case "P-FRAGMENT":
+			t.require("the receiver itself is rendered into a private buffer")
+		}
+		t.flush()
+	}
+	return o.list
+}
+
+var rawSets = map[string][]string{}
+
+// normaliseInst strips instance numbers so that texts of different paths compare.
+func normaliseInst(s string) string {
+	var b strings.Builder
+	for i := 0; i < len(s); i++ {
+		if s[i] == '@' {
+			j := i + 1
+			for j < len(s) && s[j] >= '0' && s[j] <= '9' {
+				j++
+			}
+			i = j - 1
+			continue
+		}
+		b.WriteByte(s[i])
+	}
+	return b.String()
+}
